@@ -163,3 +163,18 @@ func TestPhaseFnNilDefaultsToNetwork(t *testing.T) {
 		t.Fatal(err)
 	}
 }
+
+// A declared length below the 4-byte header must be rejected, not sliced:
+// payload[4:length] with length < 4 panics and the receive goroutines have
+// no recover().
+func TestHandleFrameDeclaredLengthBelowHeaderRejected(t *testing.T) {
+	d := &Dispatcher{}
+	for length := 0; length < 4; length++ {
+		payload := []byte{0x01, 0x01, 0x00, byte(length), 0xAA, 0xBB}
+		for _, proto := range []uint16{ppp.ProtoLCP, ppp.ProtoPAP, ppp.ProtoCHAP, ppp.ProtoIPCP, ppp.ProtoIPv6CP, 0x1234} {
+			if err := d.HandleFrame(proto, payload); err != ErrFrameLengthMismatch {
+				t.Fatalf("proto 0x%04x length %d: want ErrFrameLengthMismatch, got %v", proto, length, err)
+			}
+		}
+	}
+}
